@@ -378,6 +378,9 @@ func stages(thorough bool) []stage {
 func run(c *core.Ctx) {
 	thorough := c.Tier == core.Thorough
 	bound := 3
+	if thorough {
+		bound = 4
+	}
 	var cs Case
 	visit := func(sub string, read bool) func(x *explore.C) bool {
 		return func(x *explore.C) bool {
@@ -436,8 +439,8 @@ func init() {
 		ID: "C02", Level: "exploration",
 		Rule: "a case = (ground-truth WebVTT model, rendering choices) chosen by the E1 explorer: four full cartesian products of small grammars (A text structure: lines x runs x nested tag walks x inline timestamps x voice x lazy/unterminated/voice-closing tags and timestamp placement; B cue header: cue count x identifier x comments x every subset of the five settings x region reference x EOL x mm:ss.ttt x tab/space x comment block form; C blocks: 0..2 regions with every subset of attributes x region reference x STYLE blocks x timestamp map x EOL x BOM x header text x blank lines x EOF form; W writer: arbitrary tag stacks on neighbouring runs x inline timestamps) plus every document within B deviations from the baseline over ALL model and rendering choice points; read direction: ReadFromWebVTT(render(model)) must denote the model; write direction (two ways of building the library value: attribute holders allocated / nil when empty): WriteToWebVTT(model) must start with WEBVTT, number the cues 1..n, define every referenced region earlier in the file, and denote the model to the library reader and to an independent decoder; non-trivial = non-baseline case, distinct by (denotation, rendering) resp. (denotation, build variant)",
 		Scope: map[core.Tier]string{
-			core.Quick:    "core products A (1 cue, <=2 lines, <=2 runs, 3 tags, depth<=2), B (<=2 cues, 32 settings subsets), C (<=2 regions x 32 attribute subsets, <=2 STYLE blocks), W (2 runs, 6 tags, depth<=2, arbitrary stacks) + deviation balls B=2 for the read and the write generator (<=2 cues, <=2 lines, <=2 runs, 6 tags, depth<=3, 17 text atoms, 13 instants)",
-			core.Thorough: "core products A (4 tags, 2 texts), B, C, W (depth<=3) + deviation balls B=3 (<=3 cues, <=3 lines, <=3 runs)",
+			core.Quick:    "core products A1 (1 line, <=2 runs), A2 (2 lines), both 3 tags x depth<=2 x timestamp x voice x 16 tag renderings; A3 (2 cues, tag leakage); B1 (1 cue: 32 settings subsets x id x comments x region ref x EOL x short time x separator x comment form); B2 (2 cues: id/comment/region attachment); C1 (<=2 regions x 32 attribute subsets x region ref); C2 (STYLE blocks x timestamp map x header forms); W (2 runs, 6 tags, depth<=2, arbitrary stacks) + deviation balls B=3 for the read and the write generator (<=2 cues, <=2 lines, <=2 runs, 6 tags, depth<=3, 17 text atoms, 13 instants, 16 rendering choice points)",
+			core.Thorough: "core products as quick with A1 <=3 runs / 4 tags, A2 4 tags, W depth<=3; deviation balls B=3 on the larger profile (<=3 cues, <=3 lines, <=3 runs) and B=4 on the quick profile",
 		},
 		Assumptions: []string{
 			"Go toolchain and standard library",
